@@ -148,8 +148,12 @@ func (p *BundlePropertyExperimenter) UnmarshalBinary(data []byte) error {
 	n += 4
 	p.ExperimenterType = binary.BigEndian.Uint32(data[n:])
 	n += 4
-	if len(data) < int(p.Length) {
-		p.data = data[n:]
+	if int(p.Length) > n {
+		if len(data) < int(p.Length) {
+			return errors.New("the []byte is too short to unmarshal the BundlePropertyExperimenter data")
+		}
+		p.data = make([]byte, int(p.Length)-n)
+		copy(p.data, data[n:p.Length])
 	}
 	return nil
 }
